@@ -440,8 +440,12 @@ Qed.
 (* Generation 1 (x/auction): vault auctions (dutch.go) and lend auctions (dutch_lend.go).  A bid names an
    amount of COLLATERAL; the bidder pays its posted value in debt, clipped to the debt still to collect
    (then the collateral slice is recomputed from that debt).  Model/DutchV1.v follows the code statement
-   by statement; TestC10V1 / TestC10V1Lend drive the real keepers.  Not modelled: the ESM branch of
-   RestartDutchAuctions, the book-keeping of UnLiquidateLockedBorrows after a lend close. *)
+   by statement; TestC10V1 / TestC10V1Lend drive the real keepers.  [v1_place_bid] is the whole message: the
+   core (checks, sale arithmetic, transfers incl. those of a close) and, for the bid that closes a LEND auction,
+   the price-feed requirement of x/liquidation UnLiquidateLockedBorrows (fix 6257748); [lv] is the locked
+   borrow behind a lend auction (v1_no_lv for vault auctions), [pin] / [pout] the debt / collateral feed at the
+   bid.  Not modelled: the ESM branch of RestartDutchAuctions, the borrow book-keeping of
+   UnLiquidateLockedBorrows after a lend close (hand-back or re-liquidation). *)
 From Comdex Require Import Model.DutchV1 Proofs.DutchProofsV1 Proofs.DutchProofsV1Bid.
 
 (* price: the update is the same arithmetic as generation 2 with the end price stored in the record *)
@@ -477,11 +481,11 @@ Print Assumptions c10_v1_end_price_refuted.
    each atomic; no assumption on prices.  g_paid = debt paid by bidders, g_recv = collateral taken off
    the auction, g_bonus = collateral paid on top of it (lend: the liquidation bonus), g_top = shortfall
    covered by the collector (vault) / the lend reserve (lend) when the collateral is sold out. *)
-Theorem c10_v1_totals : forall cf coll ao pen fees now pin pout a0 s ops,
+Theorem c10_v1_totals : forall cf lv coll ao pen fees now pin pout a0 s ops,
   (v_lend cf = true -> 0 <= v_bonus cf) -> (v_lend cf = false -> v_bonus cf = 0) ->
   0 <= coll -> 0 <= ao -> 0 <= pen -> 0 <= fees ->
   v1_activate cf coll ao pen fees now pin pout = Ok a0 ->
-  let f := v1_run cf ao (mkV1L s (Some a0) 0 0 0 0) ops in
+  let f := v1_run cf ao lv (mkV1L s (Some a0) 0 0 0 0) ops in
   0 <= g_paid f <= i_target a0 /\ 0 <= g_recv f <= coll /\
   0 <= g_bonus f /\ g_bonus f * P18 <= g_recv f * v_bonus cf /\
   match g_a f with
@@ -493,9 +497,9 @@ Proof. exact v1_totals. Qed.
 Print Assumptions c10_v1_totals.
 
 (* one bid: amounts *)
-Theorem c10_v1_bid_amounts : forall cf ao a s who bid wd s' a' r,
+Theorem c10_v1_bid_amounts : forall cf ao lv a s who bid wd pin pout s' a' r,
   v1good a -> (v_lend cf = true -> 0 <= v_bonus cf) -> (v_lend cf = false -> v_bonus cf = 0) ->
-  v1_place_bid cf ao a s who bid wd = Ok (s', a', r) ->
+  v1_place_bid cf ao lv a s who bid wd pin pout = Ok (s', a', r) ->
   let tab := i_target a - i_cur a in
   0 <= w_paid r <= tab /\ 0 <= w_slice r <= o_cur a /\
   w_recv r = w_slice r + v1_bonus_of cf (w_slice r) /\ 0 <= v1_bonus_of cf (w_slice r) /\
@@ -517,10 +521,10 @@ Print Assumptions c10_v1_bid_amounts.
    bid: the bidder pays more than the posted value of the slice minus three debt units (when the bid fills
    the target: the slice is at most one collateral unit more than the payment buys); lend: the bonus on top
    is at most the advertised share of the slice *)
-Theorem c10_v1_bid_price : forall cf ao a s who bid wd s' a' r,
+Theorem c10_v1_bid_price : forall cf ao lv a s who bid wd pin pout s' a' r,
   v1good a -> (v_lend cf = true -> 0 <= v_bonus cf) -> (v_lend cf = false -> v_bonus cf = 0) ->
   0 < v_dout cf <= P18 -> 0 < v_din cf <= P18 -> v_dout cf <= p_out a -> v_din cf <= p_in a ->
-  v1_place_bid cf ao a s who bid wd = Ok (s', a', r) ->
+  v1_place_bid cf ao lv a s who bid wd pin pout = Ok (s', a', r) ->
   holds_C10_v1_bid (v_dout cf) (v_din cf) (p_out a) (p_in a) (v_bonus cf) (o_cur a) (i_target a - i_cur a)
                    (w_paid r) (w_recv r) (w_slice r) = true.
 Proof. exact v1_bid_price_holds. Qed.
@@ -530,9 +534,9 @@ Print Assumptions c10_v1_bid_price.
    collector paying the rest) takes out of the auction account exactly this auction's remaining collateral
    and the debt it had collected; the principal (LockedVault.AmountOut) is burned, the rest of the target
    (penalty + accumulated fees) goes to the collector and into its fee book, unsold collateral to the owner *)
-Theorem c10_v1_close_complete_vault : forall cf ao a s who bid wd s' r,
+Theorem c10_v1_close_complete_vault : forall cf ao lv a s who bid wd pin pout s' r,
   v_lend cf = false -> v_bonus cf = 0 -> v1good a -> 0 <= ao <= i_target a -> 0 <= who ->
-  v1_place_bid cf ao a s who bid wd = Ok (s', None, r) ->
+  v1_place_bid cf ao lv a s who bid wd pin pout = Ok (s', None, r) ->
   i_cur a + w_paid r + w_topup r = i_target a /\
   v_led s' AUC_C = v_led s AUC_C - o_cur a /\
   v_led s' AUC_D = v_led s AUC_D - i_cur a /\
@@ -547,9 +551,9 @@ Print Assumptions c10_v1_close_complete_vault.
    the pool has received the whole target (the lend reserve covering a shortfall it can afford), the
    remaining collateral went to bidder and owner.  The bonus is paid out of the auction account ON TOP of
    the auction's own collateral (it was transferred in by the liquidation module). *)
-Theorem c10_v1_close_complete_lend : forall cf ao a s who bid wd s' r,
+Theorem c10_v1_close_complete_lend : forall cf ao lv a s who bid wd pin pout s' r,
   v_lend cf = true -> 0 <= v_bonus cf -> v1good a -> 0 <= who ->
-  v1_place_bid cf ao a s who bid wd = Ok (s', None, r) ->
+  v1_place_bid cf ao lv a s who bid wd pin pout = Ok (s', None, r) ->
   i_cur a + w_paid r + w_topup r = i_target a /\
   v_led s' AUC_C = v_led s AUC_C - o_cur a - (w_recv r - w_slice r) /\
   v_led s' AUC_D = v_led s AUC_D /\
@@ -563,11 +567,11 @@ Print Assumptions c10_v1_close_complete_lend.
    auction's remaining collateral the auction account holds what it held at the start minus the seized lot
    minus the bonus paid out; beyond what a live vault auction has collected, its debt balance is unchanged
    (vault: held until the close, then burned / sent to the collector; lend: passed on to the pool per bid) *)
-Theorem c10_v1_custody : forall cf coll ao pen fees now pin pout a0 s ops,
+Theorem c10_v1_custody : forall cf lv coll ao pen fees now pin pout a0 s ops,
   (v_lend cf = true -> 0 <= v_bonus cf) -> (v_lend cf = false -> v_bonus cf = 0) ->
   0 <= coll -> 0 <= ao -> 0 <= pen -> 0 <= fees -> Forall v1op_ok ops ->
   v1_activate cf coll ao pen fees now pin pout = Ok a0 ->
-  let f := v1_run cf ao (mkV1L s (Some a0) 0 0 0 0) ops in
+  let f := v1_run cf ao lv (mkV1L s (Some a0) 0 0 0 0) ops in
   v_led (g_s f) AUC_C - live_o f = (v_led s AUC_C - coll) - g_bonus f /\
   v_led (g_s f) AUC_D - live_i cf f = v_led s AUC_D.
 Proof. exact v1_custody. Qed.
@@ -581,7 +585,7 @@ Print Assumptions c10_v1_custody.
    moved in; one bid fills the target with 142262043 of the lot (+ 14226204 bonus), 71131022 go back to the
    borrower, 7113103 stay in the module account with no auction left. *)
 Theorem c10_v1_lend_custody_refuted :
-  exists s' r, v1_place_bid l_cf 0 l_au (mkV1S l_led None) 0 213393065 false = Ok (s', None, r) /\
+  exists s' r, v1_place_bid l_cf 0 l_lv l_au (mkV1S l_led None) 0 213393065 false (Some 1013000) (Some 1005000) = Ok (s', None, r) /\
     w_paid r = 211707829 /\ w_slice r = 142262043 /\ w_recv r = 156488247 /\
     v_led s' OWN_C = 71131022 /\ v_led s' AUC_C = 7113103 /\
     kf_C10_4 true 234732372 213393065 (w_recv r - w_slice r) = true /\
@@ -592,18 +596,18 @@ Print Assumptions c10_v1_lend_custody_refuted.
 (* outside that class the custody clause holds at every point of every history: [funded] is what was moved
    into the (otherwise empty) auction account for this auction - for vault auctions exactly the lot.  (Bank
    balances cannot be overdrawn, hence the residual is never negative: taken as a hypothesis here.) *)
-Theorem c10_v1_custody_partial : forall cf coll ao pen fees now pin pout a0 s ops,
+Theorem c10_v1_custody_partial : forall cf lv coll ao pen fees now pin pout a0 s ops,
   (v_lend cf = true -> 0 <= v_bonus cf) -> (v_lend cf = false -> v_bonus cf = 0) ->
   0 <= coll -> 0 <= ao -> 0 <= pen -> 0 <= fees -> Forall v1op_ok ops ->
   v1_activate cf coll ao pen fees now pin pout = Ok a0 ->
   (v_lend cf = false -> v_led s AUC_C = coll) -> v_led s AUC_D = 0 ->
-  let f := v1_run cf ao (mkV1L s (Some a0) 0 0 0 0) ops in
+  let f := v1_run cf ao lv (mkV1L s (Some a0) 0 0 0 0) ops in
   kf_C10_4 (v_lend cf) (v_led s AUC_C) coll (g_bonus f) = false ->
   0 <= v_led (g_s f) AUC_C - live_o f ->
   holds_C10_v1_custody (v_led (g_s f) AUC_C - live_o f) (v_led (g_s f) AUC_D - live_i cf f) = true.
 Proof.
-  intros cf coll ao pen fees now pin pout a0 s ops Hb Hb0 Hc Ha Hp Hf Hops Ea Hv Hd f Hkf Hnn.
-  destruct (v1_custody cf coll ao pen fees now pin pout a0 s ops Hb Hb0 Hc Ha Hp Hf Hops Ea) as (H1 & H2).
+  intros cf lv coll ao pen fees now pin pout a0 s ops Hb Hb0 Hc Ha Hp Hf Hops Ea Hv Hd f Hkf Hnn.
+  destruct (v1_custody cf lv coll ao pen fees now pin pout a0 s ops Hb Hb0 Hc Ha Hp Hf Hops Ea) as (H1 & H2).
   fold f in H1, H2. unfold holds_C10_v1_custody, kf_C10_4 in *.
   assert (Hcase : v_lend cf = true \/ v_lend cf = false) by (destruct (v_lend cf); auto).
   destruct Hcase as [Hl|Hl].
@@ -611,7 +615,7 @@ Proof.
     apply andb_true_iff. split; apply Z.eqb_eq; lia.
   - specialize (Hv Hl).
     assert (g_bonus f = 0).
-    { pose proof (v1_totals cf coll ao pen fees now pin pout a0 s ops Hb Hb0 Hc Ha Hp Hf Ea) as (_ & _ & B0 & B1 & _).
+    { pose proof (v1_totals cf lv coll ao pen fees now pin pout a0 s ops Hb Hb0 Hc Ha Hp Hf Ea) as (_ & _ & B0 & B1 & _).
       fold f in B0, B1. rewrite (Hb0 Hl) in B1. pose proof P18_pos. nia. }
     apply andb_true_iff. split; apply Z.eqb_eq; lia.
 Qed.
@@ -624,12 +628,81 @@ Definition v1ex_led : ledger := fun k => if k =? 0 then 1000000 else if k =? 11 
 Example c10_v1_nonvacuous :
   exists a0, v1_activate v1ex_cf 1000000 600000 (12 * P18 / 100) 0 0 (Some 1000000) (Some 1000000) = Ok a0 /\
   i_target a0 = 672000 /\
-  let f := v1_run v1ex_cf 600000 (mkV1L (mkV1S v1ex_led None) (Some a0) 0 0 0 0)
-                  [V1Bid 0 200000 false; V1Tick 100 (Some 1000000) (Some 1000000); V1Bid 1 800000 false] in
+  let f := v1_run v1ex_cf 600000 v1_no_lv (mkV1L (mkV1S v1ex_led None) (Some a0) 0 0 0 0)
+                  [V1Bid 0 200000 false None None; V1Tick 100 (Some 1000000) (Some 1000000); V1Bid 1 800000 false None None] in
   g_a f = None /\ g_paid f = 672000 /\ g_recv f = 615384 /\ g_top f = 0 /\
   v_led (g_s f) AUC_C = 0 /\ v_led (g_s f) AUC_D = 0 /\ v_led (g_s f) BRN_D = 600000 /\
   v_led (g_s f) COL_D = 72000 /\ v_netfee (g_s f) = Some 72000 /\ v_led (g_s f) OWN_C = 384616.
 Proof. eexists. split; [vm_compute; reflexivity|]. vm_compute. repeat split; reflexivity. Qed.
+
+(* The bid that closes a generation-1 LEND auction and the price feeds (fix 6257748, finding C14-F2).
+   CloseDutchLendAuction takes the auction's target off the locked borrow's debt and runs x/liquidation
+   UnLiquidateLockedBorrows; when debt AND collateral are left there ([v1_lv_open]) it values both through the
+   oracle to decide between handing the borrow back and liquidating again, and since the fix the error of a
+   missing / inactive feed is returned instead of being read as "ratio 0 = healthy".
+   (a) the message is its core except at that point: same result for vault auctions, for bids that leave the
+       auction open and for failing cores; the closing lend bid succeeds (with the core's result) exactly when
+       UnLiquidateLockedBorrows does and fails with its failure - after all sale computations, no state kept;
+   (b) fail-closed: with debt and collateral left and the debt or the collateral feed missing, the closing bid
+       is refused (ErrorPriceNotActive = Err 17, or - collateral feed active, its valuation overflowing - a panic);
+   (c) a lend auction is closed by a bid only with the locked borrow cleared or both feeds active;
+   (d) a refused bid leaves the life of the auction (state, record, totals) exactly as it was. *)
+Theorem c10_v1_lend_close_needs_feeds : forall cf ao lv a s who bid wd pin pout,
+  (match v1_place_bid_core cf ao a s who bid wd with
+   | Ok (s', None, r) =>
+       if v_lend cf then
+         match v1_lend_unliquidate cf lv (i_target a) pin pout with
+         | Ok _ => v1_place_bid cf ao lv a s who bid wd pin pout = Ok (s', None, r)
+         | Err c => v1_place_bid cf ao lv a s who bid wd pin pout = Err c
+         | Panic => v1_place_bid cf ao lv a s who bid wd pin pout = Panic
+         end
+       else v1_place_bid cf ao lv a s who bid wd pin pout = Ok (s', None, r)
+   | x => v1_place_bid cf ao lv a s who bid wd pin pout = x
+   end) /\
+  (forall s' r, v_lend cf = true -> v1_place_bid_core cf ao a s who bid wd = Ok (s', None, r) ->
+     v1_lv_open lv (i_target a) = true -> pin = None \/ pout = None ->
+     v1_place_bid cf ao lv a s who bid wd pin pout = Err 17 \/ v1_place_bid cf ao lv a s who bid wd pin pout = Panic) /\
+  (forall s' r, v_lend cf = true -> v1_place_bid cf ao lv a s who bid wd pin pout = Ok (s', None, r) ->
+     v1_lv_open lv (i_target a) = false \/ exists td tc, pin = Some td /\ pout = Some tc) /\
+  (forall f, g_a f = Some a -> g_s f = s -> (forall x, v1_place_bid cf ao lv a s who bid wd pin pout <> Ok x) ->
+     v1_step cf ao lv f (V1Bid who bid wd pin pout) = f).
+Proof.
+  intros cf ao lv a s who bid wd pin pout. split; [apply v1_place_bid_spec|].
+  split; [intros s' r; apply v1_lend_close_fail_closed|].
+  split; [intros s' r; apply v1_lend_close_needs_feeds|].
+  intros f Ea <- Hn. apply v1_step_refused with (a := a); assumption.
+Qed.
+Print Assumptions c10_v1_lend_close_needs_feeds.
+
+(* non-vacuity = the shape of harness TestC10V1Lend seed 1 case 46 (the first mismatch after the fix landed):
+   the lend auction l_au (lot 213393065, target 211707829) over a locked borrow that keeps 100000000 collateral
+   and owes 300000000; the bid for the whole lot fills the target.  With both feeds active it closes the auction
+   (ratio 88292171 x 1.013 / (100000000 x 1.005) = 0.889...); with the collateral feed inactive, or the debt
+   feed, the same bid is refused and the auction's life is untouched; the bidder can still buy a part *)
+Definition l_lv2 : v1lv := mkV1LV 100000000 300000000 300000000.
+Example c10_v1_lend_close_feeds_nonvacuous :
+  let f0 := mkV1L (mkV1S l_led None) (Some l_au) 0 0 0 0 in
+  v1_lv_open l_lv2 (i_target l_au) = true /\
+  v1_lend_unliquidate l_cf l_lv2 (i_target l_au) (Some 1013000) (Some 1005000) = Ok (Some 889949942517412935) /\
+  (exists s' r, v1_place_bid_core l_cf 0 l_au (mkV1S l_led None) 0 213393065 false = Ok (s', None, r)) /\
+  g_a (v1_step l_cf 0 l_lv2 f0 (V1Bid 0 213393065 false (Some 1013000) (Some 1005000))) = None /\
+  g_paid (v1_step l_cf 0 l_lv2 f0 (V1Bid 0 213393065 false (Some 1013000) (Some 1005000))) = 211707829 /\
+  v1_place_bid l_cf 0 l_lv2 l_au (mkV1S l_led None) 0 213393065 false (Some 1013000) None = Err 17 /\
+  v1_place_bid l_cf 0 l_lv2 l_au (mkV1S l_led None) 0 213393065 false None (Some 1005000) = Err 17 /\
+  v1_step l_cf 0 l_lv2 f0 (V1Bid 0 213393065 false (Some 1013000) None) = f0 /\
+  (exists b, g_a (v1_step l_cf 0 l_lv2 f0 (V1Bid 0 1000000 false (Some 1013000) None)) = Some b /\ o_cur b = 212393065).
+Proof.
+  cbv zeta. split; [vm_compute; reflexivity|]. split; [vm_compute; reflexivity|].
+  split. { destruct (v1_place_bid_core l_cf 0 l_au (mkV1S l_led None) 0 213393065 false) as [[[s' [a'|]] r]| |] eqn:E;
+             vm_compute in E; try discriminate. eauto. }
+  split; [vm_compute; reflexivity|]. split; [vm_compute; reflexivity|].
+  split; [vm_compute; reflexivity|]. split; [vm_compute; reflexivity|].
+  split.
+  { apply v1_step_refused with (a := l_au); [reflexivity|]. intros x. cbn [g_s].
+    assert (E : v1_place_bid l_cf 0 l_lv2 l_au (mkV1S l_led None) 0 213393065 false (Some 1013000) None = Err 17) by (vm_compute; reflexivity).
+    rewrite E. discriminate. }
+  eexists. split; vm_compute; reflexivity.
+Qed.
 
 (* the debt asset's price feed gates every bid (fix 3349d05, finding C14-F1): a bid succeeds only
    with an active debt price, and then it is exactly the core bid all theorems above are about;
